@@ -30,13 +30,11 @@ Theorem C04_empty_identity_right : forall fl ea, merge fl (Map ea) (Map []) = So
 Proof. exact empty_identity_right. Qed.
 Print Assumptions C04_empty_identity_right.
 
-(* on the left the identity needs `?` off (by design: `?` creates nothing, see
-   C04_empty_left_existing) and not `+d` together (C04_append_deep_refuted) *)
-Theorem C04_empty_identity_left_partial : forall fl eb,
-  f_existing fl = false -> f_append fl && f_deep fl = false -> ukeys (Map eb) ->
-  merge fl (Map []) (Map eb) = Some (Map eb).
+(* on the left the identity needs `?` off (by design: `?` creates nothing, see C04_empty_left_existing) *)
+Theorem C04_empty_identity_left : forall fl eb,
+  f_existing fl = false -> ukeys (Map eb) -> merge fl (Map []) (Map eb) = Some (Map eb).
 Proof. exact empty_identity_left. Qed.
-Print Assumptions C04_empty_identity_left_partial.
+Print Assumptions C04_empty_identity_left.
 
 Theorem C04_empty_left_existing : forall fl eb, f_existing fl = true -> merge fl (Map []) (Map eb) = Some (Map []).
 Proof. exact empty_left_existing. Qed.
@@ -88,9 +86,16 @@ Proof. exact seq_replaced. Qed.
 Print Assumptions C04_seq_replaced.
 
 Theorem C04_seq_appended : forall fl la lb,
-  f_append fl = true -> f_deep fl = false -> f_new fl = false -> mv fl (Some (Seq la)) (Seq lb) = Some (Seq (la ++ lb)).
+  f_append fl = true -> f_new fl = false -> mv fl (Some (Seq la)) (Seq lb) = Some (Seq (la ++ lb)).
 Proof. exact seq_appended. Qed.
 Print Assumptions C04_seq_appended.
+
+(* `+d` is `+`: an appended sequence is complete, `d` adds nothing, anywhere in the merge
+   (this was false before the repair recorded in KNOWN_FINDINGS.txt: the items were
+   also assigned by position onto the appended sequence) *)
+Theorem C04_append_ignores_deep : forall fl, f_append fl = true -> forall b t, mv fl t b = mv (no_deep fl) t b.
+Proof. exact append_ignores_deep. Qed.
+Print Assumptions C04_append_ignores_deep.
 
 Theorem C04_seq_by_position : forall fl la lb r,
   f_append fl = false -> f_deep fl = true -> mv fl (Some (Seq la)) (Seq lb) = Some r ->
@@ -118,7 +123,7 @@ Proof. exact only_new. Qed.
 Print Assumptions C04_only_new_partial.
 
 Theorem C04_new_keys_written : forall fl ea eb er k vb,
-  f_existing fl = false -> f_append fl && f_deep fl = false -> ukeys (Map eb) ->
+  f_existing fl = false -> ukeys (Map eb) ->
   merge fl (Map ea) (Map eb) = Some (Map er) -> lookup ea k = None -> lookup eb k = Some vb -> lookup er k = Some vb.
 Proof. exact only_new_writes_new. Qed.
 Print Assumptions C04_new_keys_written.
@@ -137,10 +142,10 @@ Theorem C04_ireduce_app : forall fl ds1 ds2,
 Proof. exact merge_all_app. Qed.
 Print Assumptions C04_ireduce_app.
 
-Theorem C04_ireduce_single_partial : forall fl eb,
-  f_existing fl = false -> f_append fl && f_deep fl = false -> ukeys (Map eb) -> merge_all fl [Map eb] = Some (Map eb).
+Theorem C04_ireduce_single : forall fl eb,
+  f_existing fl = false -> ukeys (Map eb) -> merge_all fl [Map eb] = Some (Map eb).
 Proof. exact merge_all_single. Qed.
-Print Assumptions C04_ireduce_single_partial.
+Print Assumptions C04_ireduce_single.
 
 (* ---- operands untouched.  At spec level [merge] is a pure function: there is
    no state an evaluation could change, so all that can be said here is that
@@ -158,28 +163,8 @@ Print Assumptions C04_operands_untouched_spec_level.
 Definition s_k : str := [107].
 Definition i_ (n : N) : node := Scalar TInt [48 + n].
 Definition it (l : list node) : list (rkey * node) := renumber_from 0 l.
-Definition fl_pd : flags := mkFlags true true false false.
 Definition fl_n : flags := mkFlags false false false true.
 Definition fl_p : flags := mkFlags true false false false.
-
-(* `+d`: {k:[1,2]} *+d {k:[3]} = {k:[3,2,3]} — neither appended nor merged by
-   position — and {} *+d {k:[[1]]} = {k:[[1,1]]} is not the identity *)
-Theorem C04_append_deep_refuted :
-  exists a b r, ukeys a /\ ukeys b /\ merge fl_pd a b = Some r /\
-                merge fl_p a b <> Some r /\ merge (mkFlags false true false false) a b <> Some r
-  /\ exists b', ukeys b' /\ merge fl_pd (Map []) b' <> Some b' /\ merge fl_pd (Map []) b' <> None.
-Proof.
-  exists (Map [(s_k, Seq (it [i_ 1; i_ 2]))]), (Map [(s_k, Seq (it [i_ 3]))]), (Map [(s_k, Seq (it [i_ 3; i_ 2] ++ it [i_ 3]))]).
-  split; [repeat constructor; cbn; intuition discriminate|].
-  split; [repeat constructor; cbn; intuition discriminate|].
-  split; [vm_compute; reflexivity|].
-  split; [intro H; vm_compute in H; discriminate|].
-  split; [intro H; vm_compute in H; discriminate|].
-  exists (Map [(s_k, Seq (it [Seq (it [i_ 1])]))]).
-  split; [repeat constructor; cbn; intuition discriminate|].
-  split; intro H; vm_compute in H; discriminate.
-Qed.
-Print Assumptions C04_append_deep_refuted.
 
 (* `n`: {k:null} *n {k:5} = {k:5}: a key that exists in a is overwritten *)
 Theorem C04_only_new_null_refuted :
